@@ -1,12 +1,22 @@
 """C16 Edge distances, differences and gradients follow the edge's own neighbours"""
 PROPERTY = "C16"
 LEVEL = "proof"
-FUNCTIONS = [
-    "uxarray.grid.neighbors._construct_edge_node_distances",
-    "uxarray.grid.neighbors._construct_edge_face_distances",
-]
+FUNCTIONS = ['uxarray.grid.neighbors._construct_edge_node_distances',
+    'uxarray.grid.neighbors._construct_edge_face_distances',
+    'uxarray.core.gradient._calculate_edge_face_difference@rank1',
+    'uxarray.core.gradient._calculate_edge_face_difference@rank2',
+    'uxarray.core.gradient._calculate_edge_node_difference@rank1',
+    'uxarray.core.gradient._calculate_edge_node_difference@rank2',
+    'uxarray.core.gradient._calculate_grad_on_edge_from_faces@rank1',
+    'uxarray.core.gradient._calculate_grad_on_edge_from_faces@rank2',
+    'uxarray.core.gradient._calculate_edge_face_difference@rank1_int',
+    'uxarray.core.gradient._calculate_edge_face_difference@rank2_int',
+    'uxarray.core.gradient._calculate_edge_node_difference@rank1_int',
+    'uxarray.core.gradient._calculate_edge_node_difference@rank2_int',
+    'uxarray.core.gradient._calculate_grad_on_edge_from_faces@rank1_int',
+    'uxarray.core.gradient._calculate_grad_on_edge_from_faces@rank2_int']
 STANDINS = ["edge_quantities"]
 ASSUMPTIONS = ["A-TRIG"]
 EXPLANATION = "distance constructors pointwise"
-LEVEL_TEXT = "_construct_edge_node_distances / _construct_edge_face_distances proved for all tables: great-circle law-of-cosines expression of the edge's own two nodes / two face centres, zero on boundary edges, index space and degree/radian ghosts; differences, gradients, normalisation bounded"
+LEVEL_TEXT = '_construct_edge_node_distances / _construct_edge_face_distances proved for all tables (law-of-cosines expression of the edge\'s own two nodes / two face centres, zero on boundary edges, index-space and degree/radian ghosts); _calculate_edge_face_difference, _calculate_edge_node_difference and the un-normalised _calculate_grad_on_edge_from_faces proved for rank 1 and 2 (absolute difference of the two neighbours, divided by the centre distance, zero on boundary edges, inputs incl. the grid\'s distance table not written); normalisation, wrappers and source-supplied distances bounded'
 LEVEL_NOTE = 'A-REAL, A-TRIG; boolean-mask compression model; gradient helpers not under contract'
